@@ -32,7 +32,19 @@ impl SepErr {
     }
 }
 
+/// how a driver hands a package's files to check/build: 0 = sorted by name (what a
+/// shell glob gives), 1 = the reverse (stands for any other enumeration order)
+pub static FILE_ORDER: std::sync::atomic::AtomicU8 = std::sync::atomic::AtomicU8::new(0);
+
 pub fn gom_files_in_dir(dir: &Path) -> Vec<PathBuf> {
+    let mut files = gom_files_in_dir_sorted(dir);
+    if FILE_ORDER.load(std::sync::atomic::Ordering::Relaxed) == 1 {
+        files.reverse();
+    }
+    files
+}
+
+fn gom_files_in_dir_sorted(dir: &Path) -> Vec<PathBuf> {
     let mut files: Vec<PathBuf> = std::fs::read_dir(dir)
         .map(|rd| {
             rd.filter_map(|e| e.ok().map(|e| e.path()))
